@@ -251,3 +251,25 @@ func Or(a, b bool) bool      { return a || b }
 func Not(a bool) bool        { return !a }
 func Implies(a, b bool) bool { return !a || b }
 func Iff(a, b bool) bool     { return a == b }
+
+// OutcomeText returns a rule text whose compilation has exactly the requested
+// kinds of front-end errors (lexer error, grammar error, listener error).
+// Under the symbolic executor the text is a fixed good text and the parser
+// bridge produces the requested outcome itself (the flags may be symbolic);
+// natively the text is built so that the real front end produces it.
+func OutcomeText(lexErr, gramErr, listenerErr bool) string {
+	r1 := "rule \"b\" \"nb\" salience 7\nbegin\n ver(\"b\", 2)"
+	if lexErr {
+		r1 += " #"
+	}
+	r1 += "\nend\n"
+	r2 := "rule \"x\" \"nx\" salience 3\nbegin\n ver(\"x\", 2)\nend\n"
+	t := r1 + r2
+	if listenerErr {
+		t += r2
+	}
+	if gramErr {
+		t += "rule \"y\" begin\n ver(\"y\", 2)\n"
+	}
+	return t
+}
